@@ -18,7 +18,7 @@ def search(ctx):
 
 def run(ctx):
     ctx.prove()
-    worlds = "1400" if ctx.tier == "thorough" else "50"
+    worlds = "1400" if ctx.tier == "thorough" else "100"
     ctx.correspond("h_validate", "Validate", nontrivial=NONTRIVIAL,
                    env={"VERIF_VALIDATE_MODE": "c13", "VERIF_VALIDATE_WORLDS": worlds})
     return ctx.finish(
